@@ -52,7 +52,7 @@ ASSUMPTIONS = HOST_ASSUMPTIONS + [
     "C: 'strobe only for a halt request' and 'strobe given on completion' are only demanded when every earlier request in the trace ended with an acknowledged "
     "status ZLP (a new SETUP aborting an unfinished request is C07's subject)",
 ]
-BOUNDS = "A: mps=2, K=18 quick / 24 thorough; B: mps=2, buffer 6, K=22 / 28; C: K=12 / 18, all SETUP fields symbolic"
+BOUNDS = "A: mps=2, K=18 quick / 24 thorough; B: mps=2, buffer 6, K=22 / 28; C: K=13 / 18, all SETUP fields symbolic"
 OUTSIDE = "strobes at arbitrary cycles (e.g. while the endpoint's own packet is in flight) -- not producible by the in-repo " \
           "handler; USBSignalInEndpoint and isochronous endpoints (no clear-halt support in the source); user request handlers " \
           "driving clear_endpoint_halt; SET_INTERFACE / SET_CONFIGURATION toggle resets (not implemented in the source)"
@@ -301,7 +301,7 @@ class HandlerHarness(Harness):
             tx.ready.eq(self.tx_ready & in_packet & ~hold),
             pkt_end.eq(is_zlp | ((pkt_start | in_packet) & tx.valid & tx.last & tx.ready)),
         ]
-        with m.If(pkt_end):
+        with m.If(pkt_end | (in_packet & ~tx.valid)):     # (a packet the handler abandons is over, too)
             m.d.usb += in_packet.eq(0)
         with m.Elif(pkt_start):
             m.d.usb += in_packet.eq(1)
@@ -312,14 +312,23 @@ class HandlerHarness(Harness):
                 m.d.usb += [pid_reg.eq(newpid), ep0.eq(tok0_ev)]
             with m.Else():
                 m.d.usb += pid_reg.eq(0)
+        # response window: the host waits for the device's answer (>= 16 bit times); status ZLPs and serializer answers
+        # start at once / in the next cycle, GET_DESCRIPTOR answers a few cycles later: keep the bus reserved for 4 cycles
+        # after a data-stage request, 1 cycle after a status-stage request, or until the answer has started
+        resp_cnt = Signal(2, name="h_resp_cnt")
         with m.Elif(rfr_ev):
-            m.d.usb += ph.eq(T_RESP)
+            m.d.usb += [ph.eq(T_RESP), resp_cnt.eq(Mux(self.stage, 0, 3))]
         with m.Elif(setup_ev):
             m.d.usb += ph.eq(T_IDLE)          # one setup.received per SETUP token
         with m.Elif(ph == T_RESP):
-            m.d.usb += ph.eq(Mux((pkt_start | in_packet) & ~pkt_end, T_TX, T_IDLE))
+            with m.If((pkt_start | in_packet) & ~pkt_end):
+                m.d.usb += ph.eq(T_TX)
+            with m.Elif(pkt_end | (resp_cnt == 0)):
+                m.d.usb += ph.eq(T_IDLE)
+            with m.Else():
+                m.d.usb += resp_cnt.eq(resp_cnt - 1)
         with m.Elif(ph == T_TX):
-            with m.If(pkt_end):
+            with m.If(pkt_end | (in_packet & ~tx.valid)):
                 m.d.usb += ph.eq(T_IDLE)
         with m.If(ack_ev):
             m.d.usb += own_owed.eq(0)
@@ -393,7 +402,7 @@ def queries(tier):
                     desc="B: USBStreamOutEndpoint mps=2 buffer 6, OUT host free (toggles, corruption, gaps), consumer free, clear-halt strobe"))
     qs.append(Query("cosim_out", fb, 0, kind="cosim", cosim_cycles=60 if quick else 600))
     fc = lambda: HandlerHarness()
-    qs.append(Query("bmc_handler", fc, 12 if quick else 18, timeout=900,
+    qs.append(Query("bmc_handler", fc, 13 if quick else 18, timeout=900,
                     desc="C: StandardRequestHandler, SETUP fields symbolic per request, tokens/stage strobes/own+broadcast ACKs free"))
     qs.append(Query("cosim_handler", fc, 0, kind="cosim", cosim_cycles=60 if quick else 600))
     return qs
